@@ -7,7 +7,7 @@
     text_roundtrip_xml_partial attr_roundtrip_xml_partial
     reread_nostrip reread_strip strip_commutes_escape site_yields_plain markup_add_escapes
     structure_preserved_partial render_stream_ok hole_is_data emit_both_implementations markup_format_site
-    payload_is_data
+    payload_is_data structure_preserved_markup_partial
     attrs_site_partial attrs_site_none_removes attrs_site_others_untouched attrs_blank_dropped
     script_text_is_raw div_text_is_escaped attr_name_not_escaped pre_keeps_whitespace div_normalises_whitespace
     text_cr_not_recovered_xml attr_lf_not_recovered_xml control_char_not_wellformed_xml
@@ -17,6 +17,7 @@ import Genshi.Lemmas.SubstTmpl
 import Genshi.Lemmas.SubstAttrs
 import Genshi.Lemmas.SubstFmt
 import Genshi.Lemmas.SubstNonInt
+import Genshi.Lemmas.SubstSplice
 namespace Genshi.Props.C01
 open Genshi.Escape Genshi.Str Genshi.Subst
 
@@ -517,6 +518,22 @@ theorem emit_both_implementations (m : Method) (v : List Char) :
     (escapeCBytes true (utf8 v)).1 = utf8 (emitAttr v) :=
   ⟨Genshi.Props.C18.escapeC_eq_escapePy false v, Genshi.Props.C18.escapeC_eq_escapePy true v⟩
 
+/-- **structure_preserved with markup that has tags, written by the template author**
+    (`Markup('<a href="%s">%s</a>') % (u, v)` inside a template), without whitespace stripping.
+    The rendered stream holds ONE `Markup` text for such a site (the model of the code is unchanged);
+    the proof shows that the serializer writes it exactly as it would write the author's tags as
+    elements with the escaped operands between them (`SameOut.splice`, behind `EmptyTagFilter`), and
+    the template induction carries that relation (`Sem`).  Re-reading gives the author's elements
+    *and* the template's, every operand and every other substituted value verbatim.
+    Hypotheses: `nodesOkM` = `nodesOkB` plus, for these sites: the author's names are names without
+    `%`, not void under html, the operands are plain strings of the context, and there are as many
+    as holes.  MISSING: `strip_whitespace=True` for these sites (the filter normalises the whole text
+    run, attribute values inside the author's tags included), mapping operands, safe *values* with tags. -/
+theorem structure_preserved_markup_partial (m : Method) (T : List Node) (env : Env)
+    (hT : nodesOkM m T = true) (hdom : listOk env T = true) (henv : EnvOk env) :
+    readDoc m (serialize m false (renderList env T)) = some (coalesce (expectedList env T)) :=
+  (list_sem m T env hT hdom henv).read
+
 /-- **Template data cannot change the structure** (non-interference).  Replace the text of
     every value that is not marked safe — every `str`, the `__str__` of every object, in the
     environment and in the template's context values — by anything at all (`retext f`: the
@@ -612,6 +629,19 @@ example : fmtString examplePieces =
 example : (fillEsc examplePieces [['"', '>', '<'], ['<', '/', 'a', '>']]).map (fun toks => coalesce (toks.flatMap tokEvents)) =
     some [.start ['a'] [(['h', 'r', 'e', 'f'], ['"', '>', '<']), (['c', 'l', 'a', 's', 's'], ['x', '"', 'y'])],
           .text ['1', '0', '0', '%', ' ', '<', '/', 'a', '>'] false, .end_ ['a']] := by decide
+
+/-- `<p>${Markup('<a href="%s" class="x&#34;y">100%% %s</a>') % (u, v)}!</p>` -/
+def exampleM : List Node :=
+  [.el ['p'] [] none
+    [.site (.fmtp examplePieces [.lit (.str ['"', '>', '<']), .lit (.str ['<', '/', 'a', '>'])]), .lit ['!']]]
+
+example : nodesOkM .html exampleM = true ∧ nodesOkM .xml exampleM = true ∧ listOk [] exampleM = true := by decide
+
+example : readDoc .html (serialize .html false (renderList [] exampleM)) =
+    some [.start ['p'] [],
+          .start ['a'] [(['h', 'r', 'e', 'f'], ['"', '>', '<']), (['c', 'l', 'a', 's', 's'], ['x', '"', 'y'])],
+          .text ['1', '0', '0', '%', ' ', '<', '/', 'a', '>'] false, .end_ ['a'],
+          .text ['!'] false, .end_ ['p']] := by decide
 
 /-- a template with an interpolated attribute, `py:attrs`, a loop, a `Markup` operator and a
     builder call: inside the hypotheses of `structure_preserved` for all methods -/
